@@ -33,7 +33,7 @@ def check(wt, prop):
 
 
 for prop in sys.argv[1:]:
-    wt = '/tmp/seed/' + prop
+    wt = os.environ.get('SEED_BASE', '/tmp/seed') + '/' + prop
     head = subprocess.run(['git', '-C', '/repo', 'rev-parse', 'HEAD'], capture_output=True, text=True).stdout.strip()
     subprocess.run(['git', '-C', wt, 'checkout', '-q', '--', '.'])
     subprocess.run(['git', '-C', wt, 'checkout', '-q', '--detach', head])
@@ -57,7 +57,7 @@ for prop in sys.argv[1:]:
         ok = rec['demo_without'] == 0 and rec['demo_with'] == 1 and not rec['suite_not_passing']
         rec['confirmed'] = ok
         rec['caught_by'] = [p for p, v in rec['checks'].items() if v['exit'] == 1]
-        dst = '/verif/seeded/%s-%s' % (prop, k)
+        dst = '/verif/seeded/%s-%s%s' % (prop, os.environ.get('SEED_TAG', ''), k)
         os.makedirs(dst, exist_ok=True)
         shutil.copy(d + '/patch.diff', dst + '/patch.diff')
         shutil.copy(d + '/demo.py', dst + '/demo.py')
